@@ -26,7 +26,10 @@ EXTENDS PosixFs
 
 CONSTANTS Scenarios,          \* set of scenario names explored in this run
           MaxFaults,          \* injected faults (errno failures and the crash) per behaviour
-          Errnos,             \* {"EIO","ENOSPC","EACCES","EXDEV","EROFS"}
+          Errnos,             \* injected errnos: {"EIO","ENOSPC","EACCES","EXDEV","EROFS"} (the property's quantifier) and any
+                              \* further ones (EBUSY, EPERM, EMFILE, ENOTEMPTY, EINTR, ENAMETOOLONG, EDQUOT): an errno is a failure
+                              \* followed by the code's handler path; the handlers only distinguish the sets in BrSets (and ENOENT,
+                              \* which is never injected) - NO errno makes a handler retry a step or re-enter a block
           DocProto,           \* "atomic" | "inplace"  document / project document / cache write protocol
           SpProto,            \* "atomic" | "inplace"  state point file (in place only after disable_multithreading())
           CacheChunks,        \* number of write chunks of the gzip stream
